@@ -36,8 +36,18 @@ fn c17views(repo: &Path) -> Result<String, String> {
         .find("def RawList_offset_of")
         .ok_or("c17views: end of the string.rs part (`def RawList_offset_of`) not found in the C10 transliteration")?;
     let mut out = all[..cut].replace("C10Builtins", "C17Views");
+    // ... and the nine closures of basic.rs that bind the views (u64 arguments converted with
+    // `try_into().ok()?`, then the string.rs method): the script-visible built-ins
+    let b0 = all.find("def bind_StringBytes_len").ok_or("c17views: `def bind_StringBytes_len` not found in the C10 transliteration")?;
+    let b1 = all.find("def bind_RotoString_repeat").ok_or("c17views: `def bind_RotoString_repeat` not found in the C10 transliteration")?;
+    if b1 < b0 || b0 < cut {
+        return Err("c17views: unexpected order of the view bindings in the C10 transliteration".into());
+    }
+    out.push_str(&all[b0..b1]);
     for f in ["StringBytes_len", "StringBytes_get", "StringBytes_slice", "StringChars_len", "StringChars_get",
-        "StringChars_slice", "StringLines_len", "StringLines_get", "StringLines_slice"] {
+        "StringChars_slice", "StringLines_len", "StringLines_get", "StringLines_slice", "bind_StringBytes_get",
+        "bind_StringBytes_slice", "bind_StringChars_get", "bind_StringChars_slice", "bind_StringLines_get",
+        "bind_StringLines_slice"] {
         if !out.contains(&format!("def {f} ")) {
             return Err(format!("c17views: definition `{f}` missing from the transliteration"));
         }
